@@ -96,10 +96,12 @@ def ops12 : List (String × Op) := [
     match e? with
     | none => .ok Json.null   -- no such handle in the current source
     | some e =>
-      let e := if deriv then e.D else e
+      let e' := if deriv then e.D else e
       .ok (listJ (fun (pt : List Float) =>
-        Json.arr #[floatBitsJ (e.evalF (pt.getD 0 0) (pt.getD 1 0) (pt.getD 2 0)),
-                   floatBitsJ (magF (pt.getD 0 0) (pt.getD 1 0) (pt.getD 2 0) e)]) pts)),
+        Json.arr #[floatBitsJ (e'.evalF (pt.getD 0 0) (pt.getD 1 0) (pt.getD 2 0)),
+                   floatBitsJ (magF (pt.getD 0 0) (pt.getD 1 0) (pt.getD 2 0) e'),
+                   -- is the point a switching point of the expression itself (not of its derivative)?
+                   Json.bool (e.onKink (pt.getD 0 0) (pt.getD 1 0) (pt.getD 2 0))]) pts)),
   ("gcp_table", fun _ =>
     .ok (listJ (fun (o : Objective) =>
       let row := Handles.setupTable o
